@@ -324,6 +324,31 @@ def run(chk, tier):
     predicted = set(json.dumps(t, sort_keys=True) for t in reduced.values() if t)
     seen_shapes = set(json.dumps(e, sort_keys=True) for e in exprs)
 
+    # ---- a (program, level) whose *direct* compilation already fails or misbehaves is outside this property (C01/C02/C03) ----
+    broken = {}
+    for j in jobs:
+        for p in j.paths:
+            if not p["chain"]:
+                f = j.trees[p["level"]].final((), p["final"])
+                if not f["ok"]:
+                    broken.setdefault((j.pid, p["level"]), (p["final"],) + fault_sig(f["res"]))
+                elif p["final"] in units.RUNS and not conforms(f["run"], j.exp):
+                    c = progcheck.classify(f["run"], j.exp) if j.exp is not None else None
+                    broken.setdefault((j.pid, p["level"]), (p["final"],) + tuple(c or fault_sig(f["run"])))
+    for j in jobs:
+        j.paths = [p for p in j.paths if (j.pid, p["level"]) not in broken]
+        keep = [k for k, s in enumerate(j.splits) if (j.pid, s["qclient"]) not in broken]
+        j.splits = [j.splits[k] for k in keep]
+        j.split_results = [j.split_results[k] for k in keep]
+    chk.extra["direct_failures"] = [{"program": k[0], "level": k[1], "final": v[0], "kind": v[1], "sig": v[2]} for k, v in sorted(broken.items())][:20]
+    chk.extra["direct_failures_count"] = len(broken)
+    if len(broken) > len(jobs) * len(LEVELS) // 3:
+        raise vlib.MachineryError("%d of %d (program, level) pairs fail without any saved form: %s" % (len(broken), len(jobs) * 3, sorted(broken.items())[:3]))
+    huge = {}
+    for (pid, level, chain, kind), tf in forms.items():
+        if not chain and kind == "fm":
+            huge[(pid, level)] = any(abs(c) >= 2**62 for c in tf.constants())
+
     # ---- the trace ----
     events, info = [], []
 
@@ -390,7 +415,7 @@ def run(chk, tier):
         raise vlib.MachineryError("TraceUnits did not reach the end of the trace\n" + r.out[-2000:])
     bads = [json.loads(l[4:]) for l in r.printed if isinstance(l, str) and l.startswith("BAD ")]
     for bad in bads:
-        report(chk, bad, events[bad["l"] - 1], info[bad["l"] - 1], forms, values)
+        report(chk, bad, events[bad["l"] - 1], info[bad["l"] - 1], forms, values, huge)
 
     # ---- evidence ----
     drift = []
@@ -437,17 +462,18 @@ def run(chk, tier):
                         "token-wise (layout-insensitive) otherwise, because the pretty-printer breaks lines differently around the longer expression"]
 
 
-def report(chk, bad, ev, rec, direct_forms, values):
+def report(chk, bad, ev, rec, direct_forms, values, huge):
     j = rec["job"]
     why = bad["why"]
     what = why.split(":")[0].replace(" ", "-")
     res = rec.get("res")
     key = {"what": what, "program_kind": "generated" if j.prog is not None else "corpus"}
-    detail = {"event": ev, "why": why, "program_id": j.pid, "source": j.text[:6000]}
+    detail = {"event": ev, "why": why, "program_id": j.pid, "source": j.text[:30000]}
     if "path" in rec and "splitres" not in rec:
         p = rec["path"]
         chain = list(p["chain"])
-        key.update(final=p["final"], via_fm="fm" in chain, chain=">".join(chain), level=p["level"])
+        key.update(final=p["final"], via_fm="fm" in chain, chain=">".join(chain), level=p["level"],
+                   huge_sint=bool(huge.get((j.pid, p["level"]))))
         if ev["ev"] == "Step":
             key.update(failed_step="%s>%s" % ((["src"] + chain)[rec["step"]], chain[rec["step"]]))
         detail.update(path=p, commands=[s for s in p["steps"]])
@@ -457,6 +483,14 @@ def report(chk, bad, ev, rec, direct_forms, values):
                 a = d.named.decode("latin-1") if ev["subst"] == 0 else d.token_form(values)[0]
                 bb = rec["form"].named.decode("latin-1") if ev["subst"] == 0 else rec["tok"]
                 detail["first_difference"] = units.first_diff(a, bb)
+                key["sig"] = units.diff_class(d.token_form(values)[0], rec["tok"])
+        if ev["ev"] == "Step" and why.startswith("identity") and p["chain"][rec["step"]] == "fm":
+            t = j.trees[p["level"]]
+            before, after = t.member_bytes(chain[:rec["step"]]), t.member_bytes(chain[:rec["step"] + 1])
+            if before is not None and after is not None:
+                ta, tb = units.TextForm("fm", before), units.TextForm("fm", after)
+                key["sig"] = units.diff_class(ta.token_form({})[0], tb.token_form({})[0])
+                detail["first_difference"] = units.first_diff(before.decode("latin-1"), after.decode("latin-1"))
     else:
         s = rec["splitres"]["split"]
         key.update(split_form=s["form"], route=s["route"], qlib=s["qlib"], qclient=s["qclient"])
